@@ -184,3 +184,144 @@ pub fn classify_stream(r: &Inflated, cx: &mut Ctx) -> bool {
     cx.class(&format!("final-bit-align:{}", r.blocks.last().map(|b| b.end_bit & 7).unwrap_or(0)));
     nt
 }
+
+// ---------------------------------------------------------------------------------------------
+// Mutations (C04/C05/C07 and, when the mutant stays valid, C03)
+
+#[derive(Clone, Copy, Debug, Serialize, Deserialize, PartialEq, Eq)]
+pub enum Mutation {
+    BitFlip { pos: u16, bit: u8 },
+    ByteSet { pos: u16, val: u8 },
+    Truncate { pos: u16 },
+    Insert { pos: u16, val: u8 },
+    Delete { pos: u16 },
+    /// overwrite a few bytes with the bytes found elsewhere in the stream
+    Splice { from: u16, to: u16, len: u8 },
+    /// xor the last byte / one of the last four bytes (trailer edits)
+    TailXor { back: u8, mask: u8 },
+    /// flip a bit in the first two bytes (header edits)
+    HeadXor { which: bool, mask: u8 },
+}
+
+pub fn mutate(bytes: &mut Vec<u8>, m: &Mutation) {
+    let at = |sel: u16, len: usize| -> usize { ((sel as u64 * len as u64) >> 16) as usize };
+    match *m {
+        Mutation::BitFlip { pos, bit } => {
+            if !bytes.is_empty() {
+                let p = at(pos, bytes.len());
+                bytes[p] ^= 1 << (bit & 7);
+            }
+        }
+        Mutation::ByteSet { pos, val } => {
+            if !bytes.is_empty() {
+                let p = at(pos, bytes.len());
+                bytes[p] = val;
+            }
+        }
+        Mutation::Truncate { pos } => {
+            let p = at(pos, bytes.len() + 1);
+            bytes.truncate(p);
+        }
+        Mutation::Insert { pos, val } => {
+            let p = at(pos, bytes.len() + 1);
+            bytes.insert(p, val);
+        }
+        Mutation::Delete { pos } => {
+            if !bytes.is_empty() {
+                let p = at(pos, bytes.len());
+                bytes.remove(p);
+            }
+        }
+        Mutation::Splice { from, to, len } => {
+            if !bytes.is_empty() {
+                let f = at(from, bytes.len());
+                let t = at(to, bytes.len());
+                for i in 0..len as usize {
+                    if f + i < bytes.len() && t + i < bytes.len() {
+                        bytes[t + i] = bytes[f + i];
+                    }
+                }
+            }
+        }
+        Mutation::TailXor { back, mask } => {
+            let b = (back % 6) as usize;
+            if bytes.len() > b {
+                let p = bytes.len() - 1 - b;
+                bytes[p] ^= mask | 1;
+            }
+        }
+        Mutation::HeadXor { which, mask } => {
+            let p = which as usize;
+            if bytes.len() > p {
+                bytes[p] ^= mask | 1;
+            }
+        }
+    }
+}
+
+pub fn mutation() -> BoxedStrategy<Mutation> {
+    prop_oneof![
+        6 => (any::<u16>(), 0u8..8).prop_map(|(pos, bit)| Mutation::BitFlip { pos, bit }),
+        3 => (any::<u16>(), any::<u8>()).prop_map(|(pos, val)| Mutation::ByteSet { pos, val }),
+        2 => any::<u16>().prop_map(|pos| Mutation::Truncate { pos }),
+        2 => (any::<u16>(), any::<u8>()).prop_map(|(pos, val)| Mutation::Insert { pos, val }),
+        2 => any::<u16>().prop_map(|pos| Mutation::Delete { pos }),
+        1 => (any::<u16>(), any::<u16>(), 1u8..12).prop_map(|(from, to, len)| Mutation::Splice { from, to, len }),
+        2 => (any::<u8>(), any::<u8>()).prop_map(|(back, mask)| Mutation::TailXor { back, mask }),
+        1 => (any::<bool>(), any::<u8>()).prop_map(|(which, mask)| Mutation::HeadXor { which, mask }),
+    ]
+    .boxed()
+}
+
+/// any input: valid streams, directive-carrying streams, mutants, random bytes
+#[derive(Clone, Debug, Serialize, Deserialize)]
+pub struct AnyInput {
+    pub src: Src,
+    pub muts: Vec<Mutation>,
+}
+
+impl AnyInput {
+    /// bytes + zlib flag (validity unknown)
+    pub fn bytes(&self, cx: &mut Ctx) -> Option<(Vec<u8>, bool)> {
+        // build without judging validity
+        let (mut bytes, zl) = match &self.src {
+            Src::Grammar(rec) => {
+                let b = build(rec);
+                (b.bytes, rec.zlib.is_some())
+            }
+            other => {
+                let t = realize(other, cx)?;
+                (t.bytes, t.zlib)
+            }
+        };
+        for m in &self.muts {
+            mutate(&mut bytes, m);
+        }
+        Some((bytes, zl))
+    }
+}
+
+pub fn any_input() -> BoxedStrategy<AnyInput> {
+    let dirs = gs::stream_with_directive(4, 40, 600, None).prop_map(Src::Grammar);
+    let rnd = (proptest::collection::vec(any::<u8>(), 0..200), any::<bool>()).prop_map(|(bytes, zlib)| Src::Bytes { bytes, zlib });
+    // random bytes behind a plausible header so they get past the first gate
+    let rnd_hdr = (proptest::collection::vec(any::<u8>(), 0..120), 0u8..3, any::<bool>()).prop_map(|(mut bytes, bt, zlib)| {
+        let mut v = Vec::new();
+        if zlib {
+            v.extend_from_slice(&[0x78, 0x9c]);
+        }
+        if let Some(b) = bytes.first_mut() {
+            *b = (*b & !6) | (bt << 1);
+        }
+        v.append(&mut bytes);
+        Src::Bytes { bytes: v, zlib }
+    });
+    prop_oneof![
+        5 => dirs.prop_map(|src| AnyInput { src, muts: vec![] }),
+        6 => (valid_src(false), proptest::collection::vec(mutation(), 1..4)).prop_map(|(src, muts)| AnyInput { src, muts }),
+        1 => (valid_src(false), Just(vec![])).prop_map(|(src, muts)| AnyInput { src, muts }),
+        1 => rnd.prop_map(|src| AnyInput { src, muts: vec![] }),
+        2 => rnd_hdr.prop_map(|src| AnyInput { src, muts: vec![] }),
+    ]
+    .boxed()
+}
